@@ -84,4 +84,10 @@ func (p *verifPool) Put(x any) {
 		p.items = append(p.items, x)
 	}
 	p.mu.Unlock()
+	// Put publishes x: from here on another goroutine's Get may hand it out.
+	// A scheduling point right after the publication lets the run interleave
+	// that Get with whatever the caller still does afterwards (code that keeps
+	// touching an object it has already returned to the pool is exactly what
+	// a pool misuse looks like).
+	verifYield("pool.put.published", nil)
 }
